@@ -12,6 +12,7 @@ import (
 	"fmt"
 	"os"
 	"path/filepath"
+	"strings"
 	"time"
 
 	simapp "github.com/KiraCore/sekai/app"
@@ -110,6 +111,15 @@ func c16GentxClaim(r *Rec) {
 					max = rec.Id
 				}
 			}
+			var idsS []string
+			for _, id := range gc.ids {
+				idsS = append(idsS, fmt.Sprint(id))
+			}
+			idl := "-"
+			if len(idsS) > 0 {
+				idl = strings.Join(idsS, ",")
+			}
+			r.Op(fmt.Sprintf("ident gentx %s %d", idl, gc.counter), fmt.Sprintf("counter=%d max=%d n=%d", og.LastIdentityRecordId, max, len(og.IdentityRecords)))
 			r.Count("gentx-claim:ran")
 			r.Case(fmt.Sprintf("gentx-claim/%d", ci), true)
 			if len(og.IdentityRecords) != len(gc.ids)+1 {
